@@ -146,16 +146,21 @@ def tlc_must_pass(res, what):
 # --------------------------------------------------------------------------------------------------
 # Harness workers with a per-item deadline (non-termination is an observable outcome)
 # --------------------------------------------------------------------------------------------------
-def run_worker(cmd_prefix, items_path, n_items, deadline=20.0, env=None):
+def run_worker(cmd_prefix, items_path, n_items, deadline=20.0, env=None, max_hangs=3):
     """Runs `hcv <cmd_prefix...> <items_path> <skip>`; the worker prints {"start": i} before item i and a result
     line after it.  If no line arrives within `deadline` seconds after a start, the worker is killed, item i is
     reported as {"status":"hang"} and a new worker continues with item i+1.  Returns list of (index, result)."""
     results = []
     skip = 0
+    hangs = 0
     e = dict(os.environ, RUST_BACKTRACE="0")
     if env:
         e.update(env)
     while skip < n_items:
+        if hangs >= max_hangs:
+            # a violation has been reported for each of them; do not spend the whole budget on further hangs
+            log("[worker] %d items hung or killed the worker; the remaining %d items of this worker are not run" % (hangs, n_items - skip))
+            break
         p = subprocess.Popen([HCV] + cmd_prefix + [items_path, str(skip)], stdout=subprocess.PIPE, stderr=subprocess.PIPE, text=True, env=e)
         q = queue.Queue()
 
@@ -167,6 +172,7 @@ def run_worker(cmd_prefix, items_path, n_items, deadline=20.0, env=None):
         th = threading.Thread(target=reader, daemon=True)
         th.start()
         current = None
+        got_current = False
         finished = False
         # building the suite (key generation) happens before the first start line
         wait = max(deadline, 120.0)
@@ -178,7 +184,9 @@ def run_worker(cmd_prefix, items_path, n_items, deadline=20.0, env=None):
                 p.wait()
                 if current is None:
                     raise ToolError("harness worker produced no output within %.0fs" % wait)
-                results.append((current, {"status": "hang", "detail": "no return within %.0fs" % deadline}))
+                if not got_current:
+                    results.append((current, {"status": "hang", "detail": "no return within %.0fs" % deadline}))
+                hangs += 1
                 skip = current + 1
                 break
             if line is None:
@@ -186,8 +194,10 @@ def run_worker(cmd_prefix, items_path, n_items, deadline=20.0, env=None):
                 if not finished:
                     err = p.stderr.read()[-2000:]
                     if current is not None and rc != 0:
-                        # the worker died inside an item (abort, stack overflow, ...): data, not a tool error
-                        results.append((current, {"status": "crash", "detail": "worker exited with %s: %s" % (rc, err[-300:])}))
+                        # the worker died inside an item (abort, stack overflow, ...) or left after reporting a blocked schedule: data, not a tool error
+                        if not got_current:
+                            results.append((current, {"status": "crash", "detail": "worker exited with %s: %s" % (rc, err[-300:])}))
+                        hangs += 1
                         skip = current + 1
                         break
                     raise ToolError("harness worker exited unexpectedly (%s): %s" % (rc, err))
@@ -196,11 +206,13 @@ def run_worker(cmd_prefix, items_path, n_items, deadline=20.0, env=None):
             o = json.loads(line)
             if "start" in o:
                 current = o["start"]
+                got_current = False
                 wait = deadline
             elif "done" in o:
                 finished = True
             else:
                 results.append((current, o))
+                got_current = True
                 wait = deadline
     return results
 
